@@ -1230,8 +1230,8 @@ func (g *injGen) fixedFlameSessions() {
 	u := universeArgs(nFlameTypes)
 	g.emit("NEW injectflame %s", u)
 	g.emit("FM %d 1", tyStr)
-	g.emit("H c %d.%d.2+%d.%d.3", tyPS, tyPS, tyIfA, tyS) // request 0 maps *tS and ifA
-	g.emit("H g %d,%d,%d,%d -", tyPS, tyIfA, tyStr, tyCtx)  // a later handler of request 0 sees them
+	g.emit("H c %d.%d.2+%d.%d.3", tyPS, tyPS, tyIfA, tyS)  // request 0 maps *tS and ifA
+	g.emit("H g %d,%d,%d,%d -", tyPS, tyIfA, tyStr, tyCtx) // a later handler of request 0 sees them
 	g.emit("H w")
 	g.emit("H hf")
 	g.emit("H l -")
